@@ -67,14 +67,14 @@ CHECKS["C15"] = dict(
          "after every construction/append of a manager the retained candles are exactly that window of the collapsed (and filled) "
          "candles; the window is the same for every append schedule: mgr_append cfg (tasks cfg xs) ys = tasks cfg (xs ++ ys) for the "
          "manager with timeframe and lifespan, also with gap filling (timeframe + fill + lifespan). Clause 2 for one reading: for SMA, EMA, RMA, WMA, VWMA, ROC, TR, OBV, Counter, HLA the value computed at an index is "
-         "the same with or without a trimmed prefix that leaves the class's look-back; and for a whole calculate() of these classes: on the retained "
+         "the same with or without a trimmed prefix that leaves the class's look-back; and for a whole calculate() of these classes and of HL, Donchian, AROON: on the retained "
          "candles (at least two, all calculated, the look-back retained) followed by new raw candles it computes exactly what it computes on the "
          "untrimmed list - readings and exception - so the statement applies again after every later append and trim. Correspondence: manager with lifespan, all timeframe/fill variants (check_mgr) and every indicator kind fed candle by "
          "candle under a lifespan that always keeps its look-back (check_ind); falsifier: window against an untrimmed twin after every "
          "append, and readings on the retained candles equal to the untrimmed twin's for all 27 kinds - with the class's look-back plus "
          "slack retained, and, for the indicators that are purely recursive once seeded, on a stream that thins out after warm-up so "
          "that the window holds only two or three candles (one predecessor).",
-    note="Clause 2 is proved for ten classes without helper series (one reading, and a whole calculate() on the retained list); "
+    note="Clause 2 is proved for thirteen classes without helper series (the ten of the one-reading theorem plus HL, Donchian, AROON: a whole calculate() on the retained list); "
          "for the other classes it is decided by correspondence + falsifier. Axioms: none.",
     technique="Coq proof (drop-while = filter on sorted lists) + vm_compute correspondence + falsifier",
     design="5/C15")
